@@ -49,8 +49,9 @@ func init() {
 			"(percent-w) every fmt.Errorf on a function reachable (VTA call graph) from the run entry points wraps its error operand with %w; " +
 			"(go-recover) every go statement in compose/schema spawns a function whose first action is a deferred recover that records the panic as an error; " +
 			"(node-path) a failing task's error always leaves resolveInterruptCompletedTasks wrapped with the node key, and is never dropped; " +
+			"(forwarder-panic) a panic in a stream forwarder is delivered as an error item with a blocking send; (fresh-error) internalError objects, which are mutated in place on the way up, are never package-level; " +
 			"(cause-set) every internalError literal sets its cause; (sentinel) the step-limit exit returns ErrExceedMaxSteps as the cause.",
-		decided: []string{"unwrap", "percent-w", "go-recover", "node-path", "cause-set", "sentinel"},
+		decided: []string{"unwrap", "percent-w", "go-recover", "forwarder-panic", "fresh-error", "node-path", "cause-set", "sentinel"},
 		notDecided: []string{"message text and exact nesting depth of node paths", "panics on the run-loop goroutine itself (edge handlers, inline first tool call) — see REFLECT-ZERO rules under C14/C15/C16",
 			"that user-supplied callbacks do not swallow errors"},
 		run: runC13,
@@ -186,6 +187,51 @@ func runC13(w *World, r *Report) {
 			}
 			r.Check(set, "C13.cause-set", "internalError literal in "+w.fname(fn), al.Pos(), "origError set", "internalError built without its cause")
 		})
+	}
+
+	// forwarder panics become error items, reliably
+	r.Rule("C13.forwarder-panic", "a panic in a stream-forwarding goroutine is delivered as an error item with a blocking send; output/source closed on every exit", 6)
+	forwarderChecks(w, r, "C13.forwarder-panic")
+
+	// fresh error objects: internalError values are mutated in place while they travel up (node path is prepended),
+	// so they must be created per failure, never stored in a package-level variable
+	r.Rule("C13.fresh-error", "no package-level variable is initialised with an internalError (they are mutated by wrapGraphNodeError on the way up)", 1)
+	{
+		ctors := []*ssa.Function{w.Fn("compose", "newGraphRunError"), w.Fn("compose", "wrapGraphNodeError"), w.Fn("compose", "newStreamWrapperError"), w.Fn("compose", "wrapStreamWrapperError")}
+		bad := 0
+		ieT := w.Named("compose", "internalError")
+		for _, fn := range w.SSAPkg("compose").Members {
+			f, ok := fn.(*ssa.Function)
+			if !ok || f.Name() != "init" {
+				continue
+			}
+			instrs(f, func(in ssa.Instruction) {
+				st, ok := in.(*ssa.Store)
+				if !ok {
+					return
+				}
+				if _, isG := st.Addr.(*ssa.Global); !isG {
+					return
+				}
+				v := st.Val
+				isIE := false
+				if c, ok := v.(*ssa.Call); ok && isCallTo(c, ctors...) {
+					isIE = true
+				}
+				if namedOf(through(v).Type()) == ieT {
+					isIE = true
+				}
+				if isIE {
+					bad++
+					r.Fail("C13.fresh-error", "package-level internalError "+st.Addr.Name(), st.Pos(), "a shared *internalError is returned by many runs; wrapGraphNodeError prepends node keys to it in place, so node paths accumulate across runs and graphs")
+				}
+			})
+		}
+		if bad == 0 {
+			r.OK("C13.fresh-error", "compose package initialisers", w.Fn("compose", "newGraphRunError").Pos(), "no global holds an internalError")
+		}
+		// and wrapGraphNodeError's in-place update is the reason: keep the fact visible
+		r.Info("C13.fresh-error", "wrapGraphNodeError mutates the existing internalError", wrap.Pos(), "ie.nodePath.path = append([]string{nodeKey}, ...) on the error object found by errors.As")
 	}
 
 	// sentinel
